@@ -120,7 +120,9 @@ def populate(obj, n, is_model):
            'S': np.array([f's{i}' for i in range(n)], dtype='<U2'),
            # non-default widths: every integer / floating dtype has the integer / floating default fill
            'I': np.arange(n, dtype=np.int32) + 20, 'U': np.arange(n, dtype=np.uint8) + 200, 'H': np.arange(n, dtype=np.float32) + 0.25,
-           'J': np.arange(n, dtype=np.int16) - 3}
+           'J': np.arange(n, dtype=np.int16) - 3,
+           # variables named like members of the object (a property, a method): variables all the same
+           'size': np.arange(n, dtype=float) - 7.25, 'copy': np.arange(n, dtype=np.int64) + 70}
     for name, arr in ids.items():
         if name in obj.__dict__['index']:
             obj.__dict__['_' + name][:] = arr
